@@ -406,12 +406,12 @@ func genC18Args(t *rapid.T) c18Case {
 	// argument shapes: plain, piped, slot at each index, too many
 	args := []string{}
 	n := rapid.IntRange(0, 3).Draw(t, "nargs")
-	pool := []string{`"s1"`, "2", "ev", `"x y"`, "7", "3.5", "true", "nil", "absent.key"}
+	pool := []string{`"s1"`, "2", "ev", `"x y"`, "7", "3.5", "true", "nil", "absent.key", "count()"}
 	numeric := rapid.IntRange(0, 3).Draw(t, "numericArgs") == 0
 	if numeric {
 		// numbers only - literals, variables, and direct results of functions returning interface{} -
 		// parsed into *int / *float64 / *int64 / *reflect.Value targets
-		pool = []string{"2", "7", "3.5", "zero", "anyInt()", "anyFloat()", "anyInt() + 1", "i64"}
+		pool = []string{"2", "7", "3.5", "zero", "anyInt()", "anyFloat()", "anyInt() + 1", "i64", "count()", "count() + count()"}
 		if n == 0 {
 			n = 1
 		}
@@ -420,6 +420,17 @@ func genC18Args(t *rapid.T) c18Case {
 		args = append(args, pool[rapid.IntRange(0, len(pool)-1).Draw(t, "arg")])
 	}
 	piped := pool[rapid.IntRange(0, len(pool)-1).Draw(t, "piped")]
+	// (one counting argument per call: with two of them the piped form and the plain form evaluate them in a
+	// different order, and which order is right is not stated)
+	seenCount := strings.Contains(piped, "count()")
+	for i := range args {
+		if strings.Contains(args[i], "count()") {
+			if seenCount {
+				args[i] = "7"
+			}
+			seenCount = true
+		}
+	}
 	var call, plainCall func(fn string) string
 	plainCall = func(fn string) string { return fn + "(" + strings.Join(append([]string{piped}, args...), ", ") + ")" }
 	switch rapid.IntRange(0, 3).Draw(t, "shape") {
@@ -547,6 +558,9 @@ func c18ArgVars() jet.VarMap {
 		return reflect.ValueOf(show(vals))
 	})
 	vars.Set("reflParse", func(vs ...interface{}) string { return show(vs) })
+	// a function that counts its calls (fresh for every execution): an argument is evaluated once
+	calls := 0
+	vars.Set("count", func() int { calls++; return calls })
 	vars.Set("anyInt", func() interface{} { return 3 })
 	vars.Set("anyFloat", func() interface{} { return 2.5 })
 	vars.Set("i64", int64(64))
